@@ -131,6 +131,8 @@ carry C11 - whatever else the network sends (undecodable packets, X/26 on a TOP 
 theorem parallel_network_invariant (hist : List Packet) (hpar : ∀ p ∈ hist, ParHdr p) :
     IInv (run (init.enable true) hist).1 := run_iinv hist _ init_iinv hpar
 
+example : IInv (run (init.enable true) []).1 := parallel_network_invariant [] (fun _ h => by cases h)
+
 /-- **interleaved_page_roundtrip**.  Decoder in a parallel-mode state (`IInv s`, see `parallel_network_invariant`).
 Header of page P (magazine `t.m`, decimal page number, any sub-code and control bits with C11 = 0, erase flag set or
 not); then ANY sequence of items, each either a row 1..25 of P (odd-parity bytes; any subset, order, repeats) or a
